@@ -32,6 +32,10 @@ type Document struct {
 	parts map[string][]byte
 	// 图片ID计数器，确保每个图片都有唯一的ID
 	nextImageID int
+	// 脚注/尾注管理器（每个文档独立）
+	footnoteManager *FootnoteManager
+	// 编号管理器（每个文档独立）
+	numberingManager *NumberingManager
 	// styles.xml 关系的ID（打开已有文档时保留其原有ID，默认为rId1）
 	stylesRelID string
 	// styles.xml 是否由本库根据样式管理器生成（而非来自已打开的文档或模板）
